@@ -156,8 +156,17 @@ def lead_check(rep, tier):
             return
         chains = {}
         n = 0
-        prev = {}
+        # probes grouped by instant: all the chains that have a probe at an instant are resolved one after the other at that
+        # instant (several chains live side by side in one account), in an order that rotates from instant to instant
+        by_now = {}
         for s in tlaval.iter_dump(res.dump_path):
+            by_now.setdefault((s["q"]["now"][0], s["q"]["now"][1]), []).append(s)
+        probes = []
+        for k, key in enumerate(sorted(by_now)):
+            group = sorted(by_now[key], key=lambda s: (s["q"]["cls"], s["q"]["off"]))
+            r = k % len(group)
+            probes.extend(group[r:] + group[:r])
+        for s in probes:
             q, lead = s["q"], s["lead"]
             cls = q["cls"]
             if cls not in chains:
